@@ -436,7 +436,14 @@ def frame_layout(ctx):
                         f'{qn} is no longer the sum of get_type_size over '
                         f'{src}', f.file, f.line)
     fr = repo.func('qvm.cpu', 'QvmCpu._exec_frame')
-    ok = 'size=params_size + local_vars_size' in unparse(fr.node)
+    # structural: CallFrame(size=<param 1> + <param 2>, ...) in either order
+    fr_params = [a.arg for a in fr.node.args.args[1:3]]
+    ok = any(isinstance(c, ast.Call) and any(
+        k.arg == 'size' and isinstance(k.value, ast.BinOp) and
+        isinstance(k.value.op, ast.Add) and
+        sorted(unparse(x) for x in (k.value.left, k.value.right)) ==
+        sorted(fr_params) for k in c.keywords)
+        for c in ast.walk(fr.node))
     ctx.instance(rule, f'{fr.file}:QvmCpu._exec_frame:size')
     if not ok:
         ctx.finding(rule, f'{fr.file}:QvmCpu._exec_frame:size',
@@ -508,7 +515,7 @@ def deferred_frame_size(ctx):
     ctx.instance(rule, 'local_vars-inserters',
                  sample={'sites': inserters})
     fin = repo.func('qbee.qvm_codegen', 'QvmInstr.final')
-    ok = 'arg() if callable(arg) else arg' in unparse(fin.node)
+    ok = pat.has('_A() if callable(_A) else _A', fin.node)
     ctx.instance(rule, f'{fin.file}:QvmInstr.final:callable-operands')
     if inserters and not ok:
         ctx.finding(rule, f'{fin.file}:QvmInstr.final:callable-operands',
@@ -762,7 +769,10 @@ def param_cells(ctx):
                     'is_builtin' in unparse(n.test)):
                 rejects = True
     fr = repo.func('qvm.cpu', 'QvmCpu._exec_frame')
-    pops_per_cell = 'for i in range(params_size)' in unparse(fr.node)
+    first_param = fr.node.args.args[1].arg
+    pops_per_cell = any(isinstance(n, ast.For) and
+                        unparse(n.iter) == f'range({first_param})'
+                        for n in ast.walk(fr.node))
     construct = 'qvm/memlayout.py:get_params_size<->QvmCpu._exec_frame'
     ctx.instance(rule, construct, sample={'params_size_sums_type_sizes':
                                           uses_size, 'frame_pops_per_cell':
